@@ -2803,9 +2803,10 @@ def translate_group(src, requests, man):
             for cn, cty, cterm in unit.consts[n_consts:]:
                 defs.append("Definition %s : %s := %s." % (cn, cty, cterm))
             src_line = decl.toks[decl.body[0]].line
-            defs.append("(* %s, line %d%s *)\n%s" % (entry["source"], src_line,
-                                                    (" - fragment " + entry["select"]) if rq.get("select") else "",
-                                                    out.text()))
+            # (the line number goes to the manifest only: the generated text must not change when lines shift)
+            defs.append("(* %s%s *)\n%s" % (entry["source"],
+                                            (" - fragment " + entry["select"]) if rq.get("select") else "",
+                                            out.text()))
             if out.cfgs:
                 defs.append("Definition %s_cfgs : list string := [%s]." % (
                     name, "; ".join(coq_string(c) for c in out.cfgs)))
